@@ -215,15 +215,18 @@ def map_nested_value(func: Callable, value: Any) -> Any:
         # Set non-init fields.
         for field in dataclasses.fields(value):
             if not field.init:
-                setattr(
+                # This syntax is frozen dataclass compatible.
+                object.__setattr__(
                     mapped_value, field.name, map_nested_value(func, getattr(value, field.name))
                 )
 
         # Copy over any non-field items from the origin value __dict__  (such as __orig_class__,
         # which exists for subscripted generic objects) that haven't made it to the mapped value.
-        for key in set(value.__dict__.keys()) - set(mapped_value.__dict__.keys()):
-            # This syntax is frozen dataclass compatible.
-            mapped_value.__dict__[key] = value.__dict__[key]
+        # Dataclasses with __slots__ have no __dict__.
+        if hasattr(value, "__dict__"):
+            for key in set(value.__dict__.keys()) - set(mapped_value.__dict__.keys()):
+                # This syntax is frozen dataclass compatible.
+                mapped_value.__dict__[key] = value.__dict__[key]
         return mapped_value
 
     else:
